@@ -2447,12 +2447,15 @@ verdict_t check_wfit(const wfit_case_t& c, ctx_t& ctx)
 int main(int argc, char** argv)
 {
     // weights: share of the case budget (per-case cost plain / tsan in ms: solver 50/135, loss 13/35, dataset 11/35, predict 17/65, fit 110/430, wfit 30/50)
+    // No shrinking: a failure here depends on the schedule, so a shrink candidate passes or fails by luck - rapidcheck would end on
+    // the variant that reproduces LEAST often (seen in the mutation experiments: 0/5 confirmations of shrunk cases) after minutes of
+    // re-running fits.  The case written on failure is the generated one; the driver confirms it with 5 replays (>= 2 must fail).
     suite_t suite("C18");
-    suite.add<solver_case_t>("solver", gen_solver_case, check_solver, 3.0);
-    suite.add<loss_case_t>("loss", gen_loss_case, check_loss, 2.0);
-    suite.add<dataset_case_t>("dataset", gen_dataset_case, check_dataset, 2.0);
-    suite.add<predict_case_t>("predict", gen_predict_case, check_predict, 3.0);
-    suite.add<fit_case_t>("fit", gen_fit_case, check_fit, 1.5);
-    suite.add<wfit_case_t>("wfit", gen_wfit_case, check_wfit, 2.0);
+    suite.add<solver_case_t>("solver", [] { return rc::gen::noShrink(gen_solver_case()); }, check_solver, 3.0);
+    suite.add<loss_case_t>("loss", [] { return rc::gen::noShrink(gen_loss_case()); }, check_loss, 2.0);
+    suite.add<dataset_case_t>("dataset", [] { return rc::gen::noShrink(gen_dataset_case()); }, check_dataset, 2.0);
+    suite.add<predict_case_t>("predict", [] { return rc::gen::noShrink(gen_predict_case()); }, check_predict, 3.0);
+    suite.add<fit_case_t>("fit", [] { return rc::gen::noShrink(gen_fit_case()); }, check_fit, 1.5);
+    suite.add<wfit_case_t>("wfit", [] { return rc::gen::noShrink(gen_wfit_case()); }, check_wfit, 2.0);
     return suite.main(argc, argv);
 }
